@@ -169,6 +169,16 @@ func (e el) goValue() interface{} {
 		return json.RawMessage(e.T)
 	case "W", "D":
 		return res.DataValue[json.RawMessage]{Data: json.RawMessage(e.T)}
+	// "J": any RES value written as raw JSON (T verbatim), e.g. a reference spelling out "soft":false
+	case "J":
+		return json.RawMessage(e.T)
+	// "U": a user struct for a reference, both members always marshalled (no omitempty); T = "<rid>|true" or "<rid>|false"
+	case "U":
+		i := strings.LastIndexByte(e.T, '|')
+		return struct {
+			RID  string `json:"rid"`
+			Soft bool   `json:"soft"`
+		}{e.T[:i], e.T[i+1:] == "true"}
 	}
 	panic("bad el kind")
 }
@@ -950,6 +960,13 @@ var confusable = [][]el{
 	{{"D", `{"s":"A"}`}, {"D", `{"s":"\u0041"}`}},
 	{{"D", `[0.1234567890123456781]`}, {"D", `[0.1234567890123456782]`}, {"D", `[0.12345678901234567810]`}},
 	{{"D", `[]`}, {"D", `{}`}, {"D", `[[]]`}},
+	// references: the soft flag decides by its VALUE.  absent / "soft":false (any key order, spacing, user struct)
+	// are one and the same reference (EQUAL: no event); "soft":true is the soft reference (DIFFERENT: event)
+	{{"r", "test.x"}, {"J", `{"rid":"test.x","soft":false}`}, {"J", `{"soft":false,"rid":"test.x"}`}, {"U", "test.x|false"},
+		{"J", `{ "rid" : "test.x" ,  "soft" : false }`},
+		{"s", "test.x"}, {"J", `{"rid":"test.x","soft":true}`}, {"J", `{"soft":true,"rid":"test.x"}`}, {"U", "test.x|true"},
+		{"J", "{\n\t\"soft\": true,\n\t\"rid\": \"test.x\"\n}"}},
+	{{"J", `{"rid":"test.y?q=1","soft":false}`}, {"J", `{"rid":"test.y?q=1","soft":true}`}, {"r", "test.y?q=1"}, {"s", "test.y?q=1"}},
 }
 
 // sibling returns another member of e's confusable group (ok=false if e is in none).
@@ -1832,6 +1849,7 @@ func main() {
 			"coverage families: read-error store, Transform failing on both sides, ids hidden by RIDToID/IDToRID = \"\", values outside the domain (wrong JSON kind, unmarshallable, no RES values), "+
 			"80 registration cases (Store set?, Default none/unmarshallable/object/array/other, Type unset/model/collection/invalid, struct literal vs With* API) with the documented panics as outcomes; "+
 			"store variant 'wrapped' (missing value / duplicate reported with errors that wrap store.ErrNotFound / store.ErrDuplicate) on handlers with a Default for 35% of the random and all default-backed histories; "+
+			"references spelled as res.Ref/res.SoftRef, raw JSON with \"soft\":false / \"soft\":true in either key order and spacing, and user structs without omitempty (flag flips = event, spelling changes = no event); "+
 			"confusable values (different for Value.Equal, equal for a lossy/normalising comparison: numbers around +-2^53, +-2^63, 1e400, 1e-400/0/-0, 18th fraction digit, 1/1.0/1e0, \\u escapes, key order / number spelling inside data values, also nested) stored verbatim: "+
 			"every ordered pair of each group as model and collection updates (replace, swap places, with context), 18% of random elements, and near-equal edits (element -> sibling, sibling neighbour, swap) in 45% of the random updates; "+
 			"random histories of 1-10 write transactions (Create/Update/Delete incl. failing ones) over models and collections of up to 12 "+
